@@ -158,6 +158,7 @@ func c11Run(t *testing.T, e *Env, body []string, next func(w *muxWorld, step int
 	}
 	emit(body[0], c11Observe(w))
 	do := func(op string) {
+		c11Progress.Step(ops, op)
 		g := strings.Fields(op)
 		e.Count("op_" + g[0])
 		switch {
@@ -355,9 +356,13 @@ func c11Run(t *testing.T, e *Env, body []string, next func(w *muxWorld, step int
 	e.Count(fmt.Sprintf("updates_%d", min(updates, 7)))
 }
 
+var c11Progress = &Progress{}
+
 func TestC11(t *testing.T) {
 	e := NewEnv(t, "connmap")
 	defer e.Close(t)
+	// started outside the bubble: real time. An operation of these histories takes milliseconds of real time.
+	defer e.StallWatchdog(150*time.Second, c11Progress, "the session pool / client connection stopped making progress on this history: the last operation never finished (dead-lock or goroutines spinning in the real code)")()
 	replay := e.ReplayLines(t)
 	onlyReplay := replay != nil
 	cases := append(replay, e.CorpusCases(t)...)
